@@ -47,14 +47,16 @@ def fmt(g, x):
     return '%.17g' % x
 
 
-def gen_prescription(g, idx, mode=None):
+def gen_prescription(g, idx, mode=None, n=None):
     """mode: 'sane' (physically plausible, paraxial data comparable), 'wild' (any numbers / layouts),
-    'd21' / 'd22' (inputs of the listed findings), 'nsc' (non-sequential)"""
+    'd21' / 'd22' (inputs of the listed findings), 'nsc' (non-sequential),
+    'dupglass' (two surfaces carrying the same unknown glass name with different n_d, V_d)"""
     r = g.r
     if mode is None:
         mode = r.choices(['sane', 'wild'], weights=[70, 30])[0]
     wild = mode == 'wild'
-    n = r.choice([1, 2, 2, 3, 4, 4, 5, 6, 8, 10, 14, 20, 30]) if idx % 7 else r.choice([1, 30])
+    n0 = r.choice([1, 2, 2, 3, 4, 4, 5, 6, 8, 10, 14, 20, 30]) if idx % 7 else r.choice([1, 30])
+    n = n or n0
     finite_obj = r.random() < 0.35
     ft = 1 if (finite_obj and r.random() < 0.7) else 0
     surfs = []
@@ -108,6 +110,10 @@ def gen_prescription(g, idx, mode=None):
         else:
             surfs[k]['glass'] = {'name': name, 'nd': fmt(g, r.uniform(1.55, 1.65)), 'vd': fmt(g, r.uniform(40, 55)),
                                  'class': 'model'}
+    if mode == 'dupglass':
+        surfs[1]['glass'] = {'name': '___BLANK', 'nd': '1.52', 'vd': '60.5', 'class': 'model'}
+        if n >= 3:
+            surfs[3]['glass'] = {'name': '___BLANK', 'nd': '1.71', 'vd': '29.5', 'class': 'model'}
     if mode == 'd22':
         what = r.choice(['curv', 'curv', 'coni', 'type', 'glass', 'stop'])
         im = surfs[-1]
@@ -152,7 +158,7 @@ def gen_prescription(g, idx, mode=None):
          'fx': fx, 'fy': fy, 'pad': pad, 'waves': waves, 'wextra': extra, 'pwav': r.randrange(1, nw + 1),
          'pwav_first': r.random() < 0.3, 'gcat': r.choice([None, ['SCHOTT'], ['SCHOTT', 'OHARA', 'CDGM']]),
          'noise': r.random() < 0.7, 'seqline': r.choice(['MODE SEQ', 'MODE SEQ', None]),
-         'nl': r.choice(['\n', '\r\n']), 'seed': r.randrange(10 ** 9)}
+         'nl': r.choice(['\n', '\r\n']), 'seed': r.randrange(10 ** 9), 'mode_first': False}
     if mode == 'nsc':
         p['seqline'] = r.choice(['MODE NSC', 'MODE NSC', 'MODE NSEQ', 'MODE MIXED'])
     return p
@@ -163,9 +169,13 @@ def emit_lines(p):
     r = random.Random(p['seed'])
     L = []
     noise = list(NOISE_HEAD) if p['noise'] else ['VERS 181105 1000 52000']
-    L.append(noise[0])
-    if p['seqline']:
+    if p.get('mode_first') and p['seqline']:
         L.append(p['seqline'])
+        L.append(noise[0])
+    else:
+        L.append(noise[0])
+        if p['seqline']:
+            L.append(p['seqline'])
     L += noise[1:6]
     ap, apv = p['ap']
     L.append({'ENPD': f'ENPD {apv}', 'FNUM': f'FNUM {apv} 0', 'OBNA': f'OBNA {apv} 0'}[ap])
@@ -211,6 +221,46 @@ def emit_lines(p):
 
 def emit_text(p):
     return p['nl'].join(emit_lines(p)) + p['nl']
+
+
+ENCODINGS = ['utf-8', 'utf-8-sig', 'utf-16-le-bom', 'utf-16-be-bom']
+
+
+def encode_text(text, enc):
+    """the bytes of the file: UTF-8 without / with BOM, UTF-16 little / big endian with BOM"""
+    if enc == 'utf-16-le-bom':
+        return b'\xff\xfe' + text.encode('utf-16-le')
+    if enc == 'utf-16-be-bom':
+        return b'\xfe\xff' + text.encode('utf-16-be')
+    return text.encode(enc)
+
+
+def importer_encodings(repo):
+    """the codec list of ZemaxFileReader._read_file, read from the source (so the model's input follows it)"""
+    import ast
+    src = open(os.path.join(repo, 'optiland/fileio/zemax_handler.py')).read()
+    for node in ast.walk(ast.parse(src)):
+        if isinstance(node, ast.FunctionDef) and node.name == '_read_file':
+            for a in ast.walk(node):
+                if isinstance(a, ast.Assign) and len(a.targets) == 1 and isinstance(a.targets[0], ast.Name) \
+                        and a.targets[0].id == 'encodings' and isinstance(a.value, ast.List) \
+                        and all(isinstance(e, ast.Constant) and isinstance(e.value, str) for e in a.value.elts):
+                    return [e.value for e in a.value.elts]
+    raise RuntimeError('codec list of _read_file not found')
+
+
+def decoded_lines(data, codecs):
+    """the lines the importer's line loop sees: every pass whose codec decodes the bytes contributes its lines
+    (a pure-ASCII file also decodes as UTF-16: one line of CJK garbage, which no operand matches)"""
+    import re
+    out = []
+    for enc in codecs:
+        try:
+            text = data.decode(enc)
+        except (UnicodeError, LookupError):
+            continue
+        out += [ln for ln in re.split('\r\n|\r|\n', text)]
+    return out
 
 
 def pyfloat(tok):
@@ -420,8 +470,9 @@ out = []
 d = tempfile.mkdtemp(prefix='c20_', dir=job['tmp'])
 for ci, c in enumerate(job['cases']):
     fn = os.path.join(d, f'c{ci}.zmx')
-    with open(fn, 'w', encoding=c['encoding'], newline='') as fh:
-        fh.write(c['text'])
+    import base64
+    with open(fn, 'wb') as fh:
+        fh.write(base64.b64decode(c['bytes']))
     res = None
     try:
         with contextlib.redirect_stdout(io.StringIO()):
@@ -478,13 +529,21 @@ def run_loader(vlib, cases):
     """cases: [{text, encoding, parax?, expected?, lookups}] -> observed list"""
     tmp = os.path.join(vlib.BUILD, 'tmp')
     os.makedirs(tmp, exist_ok=True)
-    return vlib.run_python(LOADER, {'cases': cases, 'tmp': tmp})
+    import base64
+    js = []
+    for c in cases:
+        c = dict(c)
+        c['bytes'] = base64.b64encode(encode_text(c.pop('text'), c['encoding'])).decode()
+        js.append(c)
+    return vlib.run_python(LOADER, {'cases': js, 'tmp': tmp})
 
 
 # --------------------------------------------------------------------------
 # Coq term printers
 # --------------------------------------------------------------------------
 def cstr(s):
+    # token texts are only ever compared with ASCII keywords: any other character is shown as '~'
+    s = ''.join(ch if 32 <= ord(ch) < 127 else '~' for ch in s)
     return '"' + s.replace('"', '""') + '"%string'
 
 
